@@ -46,17 +46,17 @@ CHECKS = {
     "C05": dict(
         technique="Coq totality theorems (no Panic/OutOfFuel result for any byte string, any callback behaviour) over models with explicit Go panic semantics + recover-mapped differential on hostile inputs incl. >65535 bytes",
         text="Decoder half: c05_update_decode, c05_attr_decoders, c05_prefixes, c05_addpath_prefixes, c05_mp_splitters, c05_addpath_tuples, c05_message_from_bytes prove that every exported decoding entry point (and the reader's per-message decoder) returns a value or an error for every byte string; slice-bounds panics and uint8/uint16 wrap-around are part of the model, so a panic would be a distinct result. The Go code is run on the same hostile inputs with recover; a PANIC outcome is a violation with the crashing bytes as replay.",
-        note="Partial: the wedge half (hostile streams at every FSM state followed by a probe session and Close) is decided by the system-level checks shared with C10; blocked TCP writes are runtime behaviour (known finding D13).",
+        note="The wedge half is decided on live servers: hostile streams at every FSM state on both directions, then a probe session must establish and Close must return. Blocked TCP writes are runtime behaviour outside the model (known finding D13, reported by C10).",
         design="8/C05"),
     "C12": dict(
         technique="Coq theorem: closed-form hold-down schedule for every error history (induction over the streak) + back-dated differential of updateStartupDelay + extracted closed-form oracle",
         text="c12_delay_schedule: for every history, the i-th protocol error of a streak (first error ever or after >= 300 s of quiet, then gaps < 300 s) sets the hold-down to min(60 s * 2^i, 300 s). The real updateStartupDelay is driven over generated histories by back-dating lastProtoError and compared with the model and the closed form.",
-        note="Partial: which errors start a hold-down (non-Cease notifications sent or received, never Cease/TCP/stop) and the refusal of connections while held down are decided by the system-level checks (peer manager model).",
+        note="Manager half: c12_hold_down_no_fsm, c12_hold_down_timer, c12_only_protocol_errors (closure proof over every interleaving); live Damp scenarios (each code, each state, both directions, Cease/FIN/RST controls) judge hold-down, refusal and absence of dials. c12_every_protocol_error_reported_refuted carries known finding D14. Partial: the 60..300 s waits are not sat through; the schedule is checked by back-dating.",
         design="8/C12"),
     "C13": dict(
         technique="Coq theorem: admission decision = specification predicate; differential of the real handleInboundConn on fake connections + extracted oracle",
         text="c13_admit_iff: a connection is handed to a peer iff its source is a configured remote address and, when that peer has a local address, the destination equals it; otherwise refused. The real handleInboundConn runs on fake net.Conns recording Close/Write: refused connections see exactly one Close and no Write.",
-        note="Partial: peer-side refusals (inbound in progress, Established, held down, stopping) and 'no effect on existing sessions' are decided by the system-level checks. Address string forms are a trusted abstraction.",
+        note="Peer side: c13_busy (closure proof: a refused connection changes nothing in the manager); live Admit scenarios (unknown source, wrong local address, second inbound, while Established, while held down) judge silent close and the untouched existing session. Address string forms are a trusted abstraction.",
         design="8/C13"),
     "C20": dict(
         technique="Coq refinement to an abstract map (step_refines), inductive lifecycle invariant over all operation sequences, validate = usable; differential on real Server op sequences incl. Serve/Close + dict reference oracle",
@@ -65,7 +65,59 @@ CHECKS = {
         design="8/C20"),
 }
 
-NOT_YET = "check not built yet in this session (planned; see DESIGN.md section 11)"
+SYS = ("Tied to the code on every run: the scenario driver (built -tags verif from /repo) plays TCP scripts against a real Server; "
+       "wire bytes, plugin callbacks, closes and API returns are compared with the extracted connection model, the hook event log is "
+       "replayed through the extracted manager model, and the property's clauses are judged directly on the observed history. ")
+
+CHECKS.update({
+    "C01": dict(
+        technique="Coq closure proof (kernel-checked inductive invariant over every interleaving of manager + 2 FSM goroutines) + callback-monitor theorem over all input sequences; model tied by event-log replay and chaos scenarios",
+        text="c01_one_established: in every state reachable by any trace of any length of the peer-manager transition system (both passive settings, both collision outcomes) at most one FSM is in Established; c01_established_stops_other: Established is approved only after the other FSM's goroutine ended; c01_stopped_means_gone; c01_callbacks: per connection, for every input sequence, the callback history matches OnOpenMessage? (OnEstablished (OnUpdate)* OnClose)? with no callback after OnClose. " + SYS + "Chaos scenarios (overlapping in/out sessions, faults at each state, API calls interleaved) are judged for two simultaneous Established sessions and for callback well-formedness.",
+        note="Trusted: Coq kernel (vm_compute of the closure checks), the abstraction of state functions to their possible returns, hand-written model tied by event replay (generator- and schedule-bounded). Goroutine scheduling on the real code is sampled, forced only at the hook points.",
+        design="8/C01"),
+    "C03": dict(
+        technique="Coq theorems: reader delivery invariant under every segmentation (induction over chunks), handler-call sequence = UPDATE sequence, handler Notification sent verbatim; correspondence on the real reader and on live sessions",
+        text="c03_reader_delivery: for every stream of UPDATE/KEEPALIVE frames and every way of cutting it into TCP segments the reader yields exactly the messages in order with byte-exact bodies; c03_handler_calls: in Established with a nil-returning handler, one call per UPDATE, in order; c03_handler_notification: a non-nil Notification is written verbatim, OnClose follows, later UPDATEs are not delivered; c03_window: no UPDATE before OnEstablished returned or after OnClose began. The real reader (VerifRunReader) is run on the same chunked streams; live sessions with scripted handlers are compared with the model.",
+        note="Trusted: Coq kernel; model-code tie differential (chunkings and streams generated); TCP delivers bytes in order (kernel).",
+        design="8/C03"),
+    "C04": dict(
+        technique="Coq theorems: every write of the connection machine is one whole well-formed message; whole messages are self-delimiting under any serialisation; concurrent-writer stress on live sessions parsed by a strict framing monitor",
+        text="c04_every_write_wellformed: each write performed in any state on any input is a single frame with marker, length = 19+body <= 4096 and a valid type; c04_update_frame; c04_frames_self_delimiting: any concatenation of atomic well-formed writes parses back to exactly those frames, so interleaving whole writes from any number of goroutines cannot corrupt the stream. Live part: N plugin goroutines call WriteUpdate with distinct bodies concurrently with keep-alives, handler replies and teardown; the remote side strict-parses the stream and matches every UPDATE body to a WriteUpdate call that returned nil.",
+        note="Partial for atomicity: that one conn.Write call is not interleaved with another is a property of net.Conn (Go runtime), exercised by the stress run but not modelled. Trusted: Coq kernel; differential tie.",
+        design="8/C04"),
+    "C06": dict(
+        technique="Coq theorems on the timer logic (negotiated value, arming on OPEN acceptance, expiry actions, keep-alive re-arm, zero disables) + real-time scenarios judged with tolerances",
+        text="c06_negotiated: hold = min(local, received) for every pair; c06_open_accept_timers: on acceptance hold timer armed with the negotiated value and keep-alive timer with a third (none when zero); c06_hold_expiry: NOTIFICATION (4,0), close, Idle in OpenConfirm and Established; c06_keepalive_timer; c06_zero_hold: with hold 0 no timer is ever armed and timer events are no-ops. Live part: sessions with hold times 3..9 s and 0 on both directions: silent remote (expiry time within tolerance), late keep-alives just inside/outside the window, keep-alive cadence measured at the remote.",
+        note="Partial: wall-clock clauses are measured on a sample of hold values with scheduling tolerance; Go timers are trusted. The timed model has event granularity (timer fired / not), not a clock.",
+        design="8/C06"),
+    "C07": dict(
+        technique="Coq closure proof over every interleaving incl. both collision branches + decision-rule theorems; forced schedules at hook points and all arrival orders on live sessions",
+        text="c07_decision: when both connections reached OpenConfirm the survivor is the one initiated by the speaker with the higher BGP Identifier (ties: higher AS), for either asking FSM; c07_established_first; c07_resolved: in every reachable state never two connections past the collision point, exactly one survives; c07_loser_ceased: the losing connection gets Cease before close. Live part: both orders of OPEN arrival x both id orderings x in/out, plus forced interleavings at collide.select; judged on which connection survives, Cease on the loser, one OnEstablished.",
+        note="Trusted: Coq kernel (vm_compute closure), abstraction of ids to the dominant bit (dominant_of is tied by the op-60 differential), schedule points only where hooks exist.",
+        design="8/C07"),
+    "C08": dict(
+        technique="Coq theorems: segmentation independence, well-formed prefix processed, first fault decides (induction over frames/chunks), per-fault notification codes, notification-then-close; correspondence on the real reader and live connections",
+        text="c08_segmentation_independent; c08_wellformed_prefix; c08_first_fault: exactly the messages before the first header fault are processed, then its notification, nothing after; c08_bad_marker/(1,1), c08_bad_length/(1,2) with the offending length, c08_bad_type/(1,3) with the type; c08_notification_then_close in OpenSent/OpenConfirm/Established; c08_notification_on_wire byte-exact. The real reader and live sessions are driven with every header fault at every position and random chunking.",
+        note="Trusted: Coq kernel; differential tie (generator-bounded).",
+        design="8/C08"),
+    "C09": dict(
+        technique="Coq theorems over the connection state machine: full (state x message) table, notification handling, TCP failure silent, OnClose exactly once; exhaustive state x message live scenarios",
+        text="c09_unexpected_message: every pair that is not legal progress gets NOTIFICATION (5, state subcode), close, no callback other than OnClose; c09_legal_table: the legal pairs are exactly OPEN/OpenSent, KEEPALIVE/OpenConfirm, KEEPALIVE+UPDATE/Established; c09_notification_received / _no_reply; c09_tcp_failure_silent; c09_onclose_once for every input sequence. Live: every state x message type x direction, plus multi-session sequences, compared with the model and judged.",
+        note="Trusted: Coq kernel; differential tie.",
+        design="8/C09"),
+    "C10": dict(
+        technique="Coq closure proof: shutdown progress, strictly decreasing rank (bounded), nothing left, Cease-before-close, over every interleaving; live stop-at-every-point scenarios, forced schedules, goroutine-leak census, Go race detector build",
+        text="c10_progress: after closeCh is closed every reachable non-final state has an enabled step; c10_bounded: every shutdown step decreases a rank, so no shutdown run is longer than rk s; c10_all_gone: when the manager is done no FSM goroutine, pending op or timer remains; c10_cease_first. Live: Close/DeletePeer at message k of each script on both directions, during collision, damping, dial hand-off (forced) and with active writers; judged on return latency, EOF after Cease, OnClose, no callbacks after return, goroutine census; the same families run under -race.",
+        note="Partial: the data-race clause is decided by the Go race detector on the executed schedules (not a proof); blocked TCP writes are outside the model (known finding D13). Trusted: Coq kernel, hooks.",
+        design="8/C10"),
+    "C11": dict(
+        technique="Coq theorems on the retry logic (passive never dials — closure proof; inbound end resumes outbound; non-damping errors never hold down) + real-time retry scenarios",
+        text="c11_passive_never_dials in every reachable state; c11_resume: when the inbound FSM goes down the outbound FSM is enabled at once; c11_enable_outbound: a fresh outbound FSM starts with an expired idle-hold; c11_no_damping: transport faults and Cease never start a hold-down. Live: refused / stalled / reset / FIN / Cease endings at each state, then the time and count of following dials against ConnectRetry / IdleHold settings; passive peers observed not to dial.",
+        note="Partial: pacing clauses are wall-clock measurements with tolerance on a sample of timer settings.",
+        design="8/C11"),
+})
+
+NOT_YET = "check not built"
 
 
 def main():
@@ -102,7 +154,7 @@ def main():
         }],
         "checks": checks,
         "not_applicable": [{"property_id": p, "reason": NOT_YET} for p in ALL if p not in CHECKS],
-        "notes": "See DESIGN.md. known_findings.json lists fixed and known findings.",
+        "notes": "See DESIGN.md. known_findings.json lists fixed (D1-D8, D11, D12, D15) and known (D9, D10, D13, D14) findings; seeded/ holds the mutation-validation patches.",
     }
     with open(os.path.join(VERIF, "MANIFEST.json"), "w") as f:
         json.dump(m, f, indent=1)
